@@ -962,8 +962,15 @@ pub fn one(ctx: &mut Ctx, c: &Case) -> bool {
                                         if std::env::var("C12_DEBUG").is_ok() {
                                             eprintln!("P : {}\nFP: {}", codec::describe(a), codec::describe(b));
                                         }
-                                        if a.ihr() != b.ihr() || same_witnesses(a, b).is_err() {
-                                            ctx.fail("route-disagree", &line_u, "text route + finalize_pruned ≠ construction + finalize_pruned");
+                                        // The text form shares every two nodes that had the same identity root at
+                                        // commitment time; after pruning a shared node keeps one type, so the two pruned
+                                        // programs may be typed differently (both principal for their own DAG).  What
+                                        // pruning preserves on both routes is the commitment root.
+                                        if a.cmr() != b.cmr() {
+                                            ctx.fail("route-disagree", &line_u, "text route + finalize_pruned and construction + finalize_pruned return programs with different commitment roots");
+                                        }
+                                        if a.ihr() != b.ihr() {
+                                            ctx.count("observed:FP:pruned-program-typed-differently-than-P");
                                         }
                                         check_redeem(ctx, "FP", &line_u, b, &env);
                                     }
